@@ -118,3 +118,12 @@ PROPS["C12"] = dict(
     explanation="Server.serviceAxes PROVED (bounded in #accepted) to build Remoters whose tymeout and tymer duration equal the server's tymeout; Tymer.restart/expired PROVED "
                 "(C08). The http-level close decision (serviceConnects) is covered by the http contracts when present; 'traffic in every window keeps the connection' "
                 "relies on refresh() being a lossless restart: see DESIGN.md C12 note.")
+
+PROPS["C04"] = dict(
+    contracts=["contracts.sched_bounded"], harness="harness.sched_props:C04", level="other",
+    trusted_base=["dog protocol model in contracts/sched.py"], assumptions=SCHED_ASSUME + ["the flattening lemma (a tock-0 DoDoer's cycle is the concatenation of its children's steps) is a paper argument over the per-call clauses, not mechanised"],
+    explanation="Relational property. Code-to-spec half: DoDoer.enter/recur/exit are interpreted from /repo/src against the SAME clause text as Doist.enter/recur/exit "
+                "(one harness parametrised by class: injected tymth/tock, first due tyme, send order and value, retyme rule with the owner's own tock, done flags, "
+                "reverse-order exit). " + SCHED_BOUNDED_NOTE + "Composition half: bounded differential stand-in -- random forests run natively flat and regrouped under "
+                "tock-0 DoDoers (nested up to 2 levels), leaf traces, run result and done flags compared.",
+)
